@@ -2,146 +2,204 @@
 
 package kube
 
-// C13 driver, Kubernetes half: the real EventHandler is driven with the call sequences a
-// client-go informer restricted to ONE Endpoints object delivers (Build's Update, the
-// start-up OnAdd with the same or a newer version, OnUpdate with new versions and resyncs,
-// OnDelete with the last known state or a DeletedFinalStateUnknown tombstone, re-creation),
-// addresses spread over several EndpointSubsets.  Records what the update func received.
-// No expectations here: TLC validates the trace against specs/discov/KubeEp.tla.
+// C13 driver for the Kubernetes endpoints handler: informer notification histories are
+// delivered to the real EventHandler; the update function records what it is handed. No
+// expectations here: TLC validates the trace against specs/discov/KubeEp.tla.
 
 import (
+	"encoding/json"
 	"fmt"
 	"sort"
 	"strconv"
-	"strings"
 	"testing"
 
+	"github.com/zeromicro/go-zero/core/logx"
 	v1 "k8s.io/api/core/v1"
 	metav1 "k8s.io/apimachinery/pkg/apis/meta/v1"
 	"k8s.io/client-go/tools/cache"
 )
 
-func verifIP(i int) string { return fmt.Sprintf("10.3.0.%d", i) }
-
-func verifIPInts(ips []string) []int {
-	out := make([]int, 0, len(ips))
-	for _, s := range ips {
-		n, err := strconv.Atoi(strings.TrimPrefix(s, "10.3.0."))
-		if err != nil || verifIP(n) != s {
-			n = -1
-		}
-		out = append(out, n)
-	}
-	sort.Ints(out)
-	return out
+type kubeOp struct {
+	Op    string   `json:"op"` // kset | kadd | kupdate | kresync | kdelete | kbad
+	Addrs []string `json:"addrs"`
+	Tomb  bool     `json:"tomb"`
 }
 
-func verifEndpoints(rv int, ips []int, split int) *v1.Endpoints {
-	ep := &v1.Endpoints{ObjectMeta: metav1.ObjectMeta{Name: "verif-svc", Namespace: "default",
-		ResourceVersion: strconv.Itoa(rv)}}
-	if len(ips) == 0 {
+func kubeHistory(t *testing.T, em *verifEmitter, ops []kubeOp, rnd interface{ Intn(int) int }) {
+	var pubs [][]string
+	h := NewEventHandler(func(addrs []string) {
+		cp := append([]string{}, addrs...)
+		sort.Strings(cp)
+		pubs = append(pubs, cp)
+	})
+	take := func() [][]string {
+		out := pubs
+		pubs = nil
+		if out == nil {
+			out = [][]string{}
+		}
+		return out
+	}
+	rv := 0
+	var last *v1.Endpoints // the informer's last known state of the object
+	// an Endpoints object: the ready addresses spread over 1..3 subsets (an address may be
+	// listed in several), plus not-ready addresses that are no endpoints
+	object := func(addrs []string) *v1.Endpoints {
+		rv++
+		ep := &v1.Endpoints{ObjectMeta: metav1.ObjectMeta{Name: "svc", Namespace: "ns", ResourceVersion: strconv.Itoa(rv)}}
+		if len(addrs) == 0 && rnd.Intn(3) > 0 {
+			return ep // no endpoints at all: no subsets
+		}
+		n := 1 + rnd.Intn(3)
+		subs := make([]v1.EndpointSubset, n)
+		for _, a := range addrs {
+			i := rnd.Intn(n)
+			subs[i].Addresses = append(subs[i].Addresses, v1.EndpointAddress{IP: a})
+			if rnd.Intn(4) == 0 {
+				j := rnd.Intn(n)
+				if j != i {
+					subs[j].Addresses = append(subs[j].Addresses, v1.EndpointAddress{IP: a})
+				}
+			}
+		}
+		for j := rnd.Intn(3); j > 0; j-- {
+			i := rnd.Intn(n)
+			subs[i].NotReadyAddresses = append(subs[i].NotReadyAddresses,
+				v1.EndpointAddress{IP: fmt.Sprintf("10.9.9.%d", rnd.Intn(5))})
+		}
+		ep.Subsets = subs
 		return ep
 	}
-	if split < 1 {
-		split = 1
-	}
-	subsets := make([]v1.EndpointSubset, split)
-	for i, ip := range ips {
-		s := &subsets[i%split]
-		s.Addresses = append(s.Addresses, v1.EndpointAddress{IP: verifIP(ip)})
-	}
-	for _, s := range subsets {
-		if len(s.Addresses) > 0 {
-			s.Ports = []v1.EndpointPort{{Port: 8080}}
-			ep.Subsets = append(ep.Subsets, s)
+	em.Emit(verifEv{"e": "reset"})
+	for _, op := range ops {
+		addrs := append([]string{}, op.Addrs...)
+		sort.Strings(addrs)
+		switch op.Op {
+		case "kset":
+			h.Update(object(addrs))
+			em.Emit(verifEv{"e": "kset", "addrs": addrs, "pubs": take()})
+		case "kadd":
+			last = object(addrs)
+			h.OnAdd(last, rnd.Intn(2) == 0)
+			em.Emit(verifEv{"e": "kadd", "addrs": addrs, "pubs": take()})
+		case "kupdate":
+			old := last
+			last = object(addrs)
+			h.OnUpdate(old, last)
+			em.Emit(verifEv{"e": "kupdate", "addrs": addrs, "pubs": take()})
+		case "kresync":
+			h.OnUpdate(last, last.DeepCopy())
+			em.Emit(verifEv{"e": "kresync", "pubs": take()})
+		case "kdelete":
+			if op.Tomb {
+				h.OnDelete(cache.DeletedFinalStateUnknown{Key: "ns/svc", Obj: last})
+			} else {
+				h.OnDelete(last)
+			}
+			last = nil
+			em.Emit(verifEv{"e": "kdelete", "tomb": op.Tomb, "pubs": take()})
+		case "kbad":
+			switch rnd.Intn(4) {
+			case 0:
+				h.OnAdd("bad", false)
+			case 1:
+				h.OnDelete(&v1.Pod{})
+			case 2:
+				h.OnUpdate("bad", object(addrs))
+			default:
+				h.OnUpdate(object(addrs), 42)
+			}
+			em.Emit(verifEv{"e": "kbad", "pubs": take()})
+		default:
+			t.Fatalf("kube driver: unknown op %q", op.Op)
 		}
 	}
-	return ep
 }
 
-func TestVerifKubeHandler(t *testing.T) {
+// relist = true adds the shapes that need a re-list or the resolver's start-up to occur:
+// Update(...) before the first notification, and deletes delivered as tombstones.
+func kubeRandomHistory(rnd interface{ Intn(int) int }, length int, relist bool) []kubeOp {
+	na := 1 + rnd.Intn(6)
+	set := func() []string {
+		var s []string
+		for i := 1; i <= na; i++ {
+			if rnd.Intn(2) == 0 {
+				s = append(s, fmt.Sprintf("10.0.0.%d", i))
+			}
+		}
+		return s
+	}
+	var ops []kubeOp
+	inStore := false
+	if relist && rnd.Intn(2) == 0 {
+		ops = append(ops, kubeOp{Op: "kset", Addrs: set()})
+	}
+	n := 2 + rnd.Intn(length)
+	for i := 0; i < n; i++ {
+		r := rnd.Intn(100)
+		switch {
+		case r < 8:
+			ops = append(ops, kubeOp{Op: "kbad", Addrs: set()})
+		case !inStore:
+			ops = append(ops, kubeOp{Op: "kadd", Addrs: set()})
+			inStore = true
+		case r < 60:
+			ops = append(ops, kubeOp{Op: "kupdate", Addrs: set()})
+		case r < 75:
+			ops = append(ops, kubeOp{Op: "kresync"})
+		default:
+			ops = append(ops, kubeOp{Op: "kdelete", Tomb: relist && rnd.Intn(2) == 0})
+			inStore = false
+		}
+	}
+	return ops
+}
+
+func kubeIsRelist(ops []kubeOp) bool {
+	for _, op := range ops {
+		if op.Op == "kset" || (op.Op == "kdelete" && op.Tomb) {
+			return true
+		}
+	}
+	return false
+}
+
+func kubeRun(t *testing.T, relist bool, salt int64, histories, length int) {
+	logx.Disable()
 	em := verifOpen(t)
 	defer em.Close()
-	traces := verifEnvInt("VERIF_KUBE_TRACES", 150)
-	for n := 0; n < traces; n++ {
-		// the two rarer informer situations are kept to every tenth trace each
-		startup := n%10 == 3 // the start-up list carries a newer version than Build's Update
-		tombs := n%10 == 7   // deletes noticed by a relist arrive as tombstones
-		rnd := verifRand(int64(13000 + n))
-		nips := 2 + rnd.Intn(5)
-		var calls [][]int
-		h := NewEventHandler(func(eps []string) {
-			calls = append(calls, verifIPInts(eps))
-		})
-		take := func() [][]int {
-			out := calls
-			calls = nil
-			if out == nil {
-				out = [][]int{}
-			}
-			return out
+	rnd := verifRand(salt)
+	for _, raw := range verifInput(t) {
+		var ops []kubeOp
+		if err := json.Unmarshal(raw, &ops); err != nil {
+			t.Fatal(err)
 		}
-		randIPs := func() []int {
-			out := []int{}
-			for i := 1; i <= nips; i++ {
-				if rnd.Intn(2) == 0 {
-					out = append(out, i)
-				}
-			}
-			return out
+		if kubeIsRelist(ops) == relist {
+			kubeHistory(t, em, ops, rnd)
 		}
-		em.Emit(verifEv{"e": "reset", "driver": "kube", "n": n})
-		rv := 1
-		ips := randIPs()
-		cur := verifEndpoints(rv, ips, 1+rnd.Intn(3))
-		if n%5 != 4 || startup {
-			// Build: the object just fetched goes to Update; then the informer starts
-			h.Update(cur)
-			em.Emit(verifEv{"e": "kupdate", "rv": rv, "ips": ips, "calls": take()})
-			if startup {
-				// the object changed between Build's Get and the informer's list
-				rv++
-				ips = randIPs()
-				cur = verifEndpoints(rv, ips, 1+rnd.Intn(3))
-			}
-		}
-		h.OnAdd(cur, true)
-		em.Emit(verifEv{"e": "kadd", "rv": rv, "ips": ips, "calls": take()})
-		exists := true
-		for i := 10 + rnd.Intn(20); i > 0; i-- {
-			if !exists {
-				rv++
-				ips = randIPs()
-				cur = verifEndpoints(rv, ips, 1+rnd.Intn(3))
-				h.OnAdd(cur, false)
-				em.Emit(verifEv{"e": "kadd", "rv": rv, "ips": ips, "calls": take()})
-				exists = true
-				continue
-			}
-			switch c := rnd.Intn(100); {
-			case c < 60:
-				rv++
-				nips2 := randIPs()
-				if rnd.Intn(5) == 0 {
-					nips2 = append([]int{}, ips...) // a new version with the same addresses
-				}
-				next := verifEndpoints(rv, nips2, 1+rnd.Intn(3))
-				h.OnUpdate(cur, next)
-				cur, ips = next, nips2
-				em.Emit(verifEv{"e": "kupd", "rv": rv, "ips": ips, "calls": take()})
-			case c < 80:
-				h.OnUpdate(cur, cur) // resync
-				em.Emit(verifEv{"e": "kupd", "rv": rv, "ips": ips, "calls": take()})
-			default:
-				tomb := tombs && rnd.Intn(2) == 0
-				if tomb {
-					h.OnDelete(cache.DeletedFinalStateUnknown{Key: "default/verif-svc", Obj: cur})
-				} else {
-					h.OnDelete(cur)
-				}
-				exists = false
-				em.Emit(verifEv{"e": "kdel", "tomb": tomb, "calls": take()})
-			}
-		}
+	}
+	for i := 0; i < histories; i++ {
+		kubeHistory(t, em, kubeRandomHistory(rnd, length, relist), rnd)
+	}
+}
+
+// TestVerifKubeHandler replays TLC-generated notification histories (one per distinct state
+// of KubeEpImpl) and seeded random ones on the real EventHandler: add / update / resync /
+// delete of the watched object.
+func TestVerifKubeHandler(t *testing.T) {
+	if verifThorough() {
+		kubeRun(t, false, 134, 3000, 40)
+	} else {
+		kubeRun(t, false, 134, 300, 20)
+	}
+}
+
+// TestVerifKubeHandlerRelist: the same plus Update(...) before the informer's first
+// notification (kubeBuilder.Build) and deletes noticed by a re-list (tombstones).
+func TestVerifKubeHandlerRelist(t *testing.T) {
+	if verifThorough() {
+		kubeRun(t, true, 137, 400, 30)
+	} else {
+		kubeRun(t, true, 137, 10, 12)
 	}
 }
